@@ -71,9 +71,10 @@ inductive Op
   | restart
   deriving DecidableEq, Repr
 
+/-- `restart` = clean stop, `NewManager` on the node's own store with the caches kept, start of `SyncLoop` (`reboot`) -/
 def stepOp (c : Cfg) (ch : PChain) (n : FNode) : Op → FNode
   | .ev e => (deliver ch n e).1
-  | .restart => restart c n
+  | .restart => reboot c n
 
 def runFrom (c : Cfg) (ch : PChain) (n : FNode) (ops : List Op) : FNode := ops.foldl (stepOp c ch) n
 
@@ -117,14 +118,20 @@ theorem restart_inv (g : GoodChain c ch top) (hi : Inv c ch h0 evs n) : Inv c ch
   unfold Quiet keysH keysD at this ⊢
   rw [e1, e2, e3]; exact this
 
-theorem stepOp_safe (g : GoodChain c ch top) (hs : Safe c ch h0 evs n) (o : Op) :
-    Safe c ch h0 (evs ++ evsOf [o]) (stepOp c ch n o) ∧ n.store.height ≤ (stepOp c ch n o).store.height := by
+variable {jk : Bool}
+
+theorem stepOp_safe (g : GoodChain c ch top) (hs : SafeJ jk c ch h0 evs n) (hq : Quiet n) (o : Op) :
+    SafeJ jk c ch h0 (evs ++ evsOf [o]) (stepOp c ch n o) ∧ Quiet (stepOp c ch n o) ∧
+    n.store.height ≤ (stepOp c ch n o).store.height := by
   cases o with
-  | ev e => exact ⟨(deliver_safe g hs e).1, (deliver_safe g hs e).2.le⟩
+  | ev e => exact ⟨(deliver_safe g hs e).1, deliver_quiet g hs hq e, (deliver_safe g hs e).2.le⟩
   | restart =>
-    obtain ⟨_, e1, _, _, _, _, _, _, _, hs'⟩ := restart_spec g hs
+    obtain ⟨_, e1, _, e2, e3, _, _, _, _, hs'⟩ := restart_spec g hs
     simp only [evsOf, List.filterMap_cons, List.filterMap_nil, List.append_nil, stepOp]
-    exact ⟨hs', by omega⟩
+    rw [(reboot_spec g hs hq).2]
+    refine ⟨hs', ?_, by omega⟩
+    unfold Quiet keysH keysD at hq ⊢
+    rw [e1, e2, e3]; exact hq
 
 theorem stepOp_inv (g : GoodChain c ch top) (dc : DistinctCommitments ch) (hi : Inv c ch h0 evs n) (o : Op) :
     Inv c ch h0 (evs ++ evsOf [o]) (stepOp c ch n o) := by
@@ -132,21 +139,24 @@ theorem stepOp_inv (g : GoodChain c ch top) (dc : DistinctCommitments ch) (hi : 
   | ev e => exact deliver_inv g dc hi e
   | restart =>
     simp only [evsOf, List.filterMap_cons, List.filterMap_nil, List.append_nil, stepOp]
+    rw [(reboot_spec g hi.safe hi.quiet).2]
     exact restart_inv g hi
 
 theorem evsOf_cons (o : Op) (ops : List Op) : evsOf (o :: ops) = evsOf [o] ++ evsOf ops := by
   cases o <;> simp [evsOf]
 
-theorem runFrom_safe (g : GoodChain c ch top) (ops : List Op) : ∀ {evs : List Ev} {n : FNode}, Safe c ch h0 evs n →
-    Safe c ch h0 (evs ++ evsOf ops) (runFrom c ch n ops) ∧ n.store.height ≤ (runFrom c ch n ops).store.height := by
+theorem runFrom_safe (g : GoodChain c ch top) (ops : List Op) : ∀ {evs : List Ev} {n : FNode},
+    SafeJ jk c ch h0 evs n → Quiet n →
+    SafeJ jk c ch h0 (evs ++ evsOf ops) (runFrom c ch n ops) ∧ Quiet (runFrom c ch n ops) ∧
+    n.store.height ≤ (runFrom c ch n ops).store.height := by
   induction ops with
-  | nil => intro evs n hs; simpa [runFrom, evsOf] using hs
+  | nil => intro evs n hs hq; simpa [runFrom, evsOf] using ⟨hs, hq⟩
   | cons o ops ih =>
-    intro evs n hs
-    obtain ⟨a1, a2⟩ := stepOp_safe g hs o
-    obtain ⟨b1, b2⟩ := ih a1
+    intro evs n hs hq
+    obtain ⟨a1, a2, a3⟩ := stepOp_safe g hs hq o
+    obtain ⟨b1, b2, b3⟩ := ih a1 a2
     rw [evsOf_cons, ← List.append_assoc]
-    exact ⟨b1, Nat.le_trans a2 b2⟩
+    exact ⟨b1, b2, Nat.le_trans a3 b3⟩
 
 theorem runFrom_inv (g : GoodChain c ch top) (dc : DistinctCommitments ch) (ops : List Op) :
     ∀ {evs : List Ev} {n : FNode}, Inv c ch h0 evs n → Inv c ch h0 (evs ++ evsOf ops) (runFrom c ch n ops) := by
@@ -171,13 +181,106 @@ theorem fresh_inv (g : GoodChain c ch top) : Inv c ch (c.initialHeight - 1) [] (
   rw [← h1.1] at a b
   exact ⟨fresh_safe g, a, b⟩
 
+theorem fresh_noHeaders (g : GoodChain c ch top) : (fresh c).hdrCache = [] := by
+  obtain ⟨n, ws, h1, h2⟩ := start_spec g (diskOK_empty g) {}
+  obtain ⟨ws', h3⟩ := start_fresh c
+  rw [h3] at h1
+  simp only [Option.some.injEq, Prod.mk.injEq] at h1
+  rw [h1.1]; exact h2.hc
+
+theorem fresh_quiet (g : GoodChain c ch top) : Quiet (fresh c) := by
+  intro ⟨hk, _⟩
+  simp [keysH, keys, fresh_noHeaders g] at hk
+
+/-- `run` / `runOps` start from what `NewManager` **and the start of `SyncLoop`** build on an empty store -/
+theorem boot_fresh (g : GoodChain c ch top) : ∃ ws, boot c {} = some (fresh c, ws) := by
+  obtain ⟨ws, h⟩ := start_fresh c
+  have := boot_of_start h
+  rw [loopStart_quiet (fresh_quiet g)] at this
+  exact ⟨_, this⟩
+
 theorem runOps_safe (g : GoodChain c ch top) (ops : List Op) :
     Safe c ch (c.initialHeight - 1) (evsOf ops) (runOps c ch ops) := by
-  simpa [runOps] using (runFrom_safe g ops (fresh_safe g)).1
+  simpa [runOps] using (runFrom_safe g ops (fresh_safe g) (fresh_quiet g)).1
+
+theorem runOps_quiet (g : GoodChain c ch top) (ops : List Op) : Quiet (runOps c ch ops) :=
+  (runFrom_safe g ops (fresh_safe g) (fresh_quiet g)).2.1
 
 theorem runOps_inv (g : GoodChain c ch top) (dc : DistinctCommitments ch) (ops : List Op) :
     Inv c ch (c.initialHeight - 1) (evsOf ops) (runOps c ch ops) := by
   simpa [runOps] using runFrom_inv g dc ops (fresh_inv g)
+
+/-! ## runs with junk data events (unauthenticated P2P data) anywhere -/
+
+/-- an operation of a run in which third parties take part: a genuine event / clean restart, or the delivery of an
+arbitrary `Data` item as a data event -/
+inductive JOp
+  | op (o : Op)
+  | junk (d : Data)
+
+def stepJ (c : Cfg) (ch : PChain) (n : FNode) : JOp → FNode
+  | .op o => stepOp c ch n o
+  | .junk d => (onData n d).1
+
+def runJFrom (c : Cfg) (ch : PChain) (n : FNode) (js : List JOp) : FNode := js.foldl (stepJ c ch) n
+
+/-- a run from a fresh start with genuine events, clean restarts and junk data events in any order -/
+def runJ (c : Cfg) (ch : PChain) (js : List JOp) : FNode := runJFrom c ch (fresh c) js
+
+/-- the genuine operations of such a run -/
+def opsOf (js : List JOp) : List Op := js.filterMap fun j => match j with | .op o => some o | .junk _ => none
+
+/-- every junk item of the run is junk: it does not validate against the proposer's header of the height it claims -/
+def JunkOK (ch : PChain) (js : List JOp) : Prop := ∀ d, JOp.junk d ∈ js → JunkData ch d
+
+theorem opsOf_cons (j : JOp) (js : List JOp) : opsOf (j :: js) = opsOf [j] ++ opsOf js := by
+  cases j <;> simp [opsOf]
+
+theorem evsOf_append (o1 o2 : List Op) : evsOf (o1 ++ o2) = evsOf o1 ++ evsOf o2 := by
+  simp [evsOf, List.filterMap_append]
+
+theorem stepJ_safe (g : GoodChain c ch top) (hs : SafeJ true c ch h0 evs n) (hq : Quiet n) (j : JOp)
+    (hj : ∀ d, j = .junk d → JunkData ch d) :
+    SafeJ true c ch h0 (evs ++ evsOf (opsOf [j])) (stepJ c ch n j) ∧ Quiet (stepJ c ch n j) ∧
+    n.store.height ≤ (stepJ c ch n j).store.height := by
+  cases j with
+  | op o =>
+    have : opsOf [JOp.op o] = [o] := rfl
+    rw [this]; exact stepOp_safe g hs hq o
+  | junk d =>
+    have : evsOf (opsOf [JOp.junk d]) = [] := rfl
+    rw [this, List.append_nil]
+    obtain ⟨a1, a2⟩ := junk_safe g hs (hj d rfl)
+    exact ⟨a1, junk_quiet g hs hq (hj d rfl), a2.le⟩
+
+theorem runJFrom_safe (g : GoodChain c ch top) (js : List JOp) (hj : JunkOK ch js) : ∀ {evs : List Ev} {n : FNode},
+    SafeJ true c ch h0 evs n → Quiet n →
+    SafeJ true c ch h0 (evs ++ evsOf (opsOf js)) (runJFrom c ch n js) ∧ Quiet (runJFrom c ch n js) ∧
+    n.store.height ≤ (runJFrom c ch n js).store.height := by
+  induction js with
+  | nil => intro evs n hs hq; simpa [runJFrom, opsOf, evsOf] using ⟨hs, hq⟩
+  | cons j js ih =>
+    intro evs n hs hq
+    obtain ⟨a1, a2, a3⟩ := stepJ_safe g hs hq j (fun d e => hj d (by rw [e]; exact List.mem_cons_self ..))
+    obtain ⟨b1, b2, b3⟩ := ih (fun d hd => hj d (List.mem_cons_of_mem _ hd)) a1 a2
+    rw [opsOf_cons, evsOf_append, ← List.append_assoc]
+    exact ⟨b1, b2, Nat.le_trans a3 b3⟩
+
+theorem runJFrom_append (c : Cfg) (ch : PChain) (n : FNode) (j1 j2 : List JOp) :
+    runJFrom c ch n (j1 ++ j2) = runJFrom c ch (runJFrom c ch n j1) j2 := by
+  simp [runJFrom, List.foldl_append]
+
+theorem runJ_safe (g : GoodChain c ch top) (js : List JOp) (hj : JunkOK ch js) :
+    SafeJ true c ch (c.initialHeight - 1) (evsOf (opsOf js)) (runJ c ch js) := by
+  simpa [runJ] using (runJFrom_safe g js hj (fresh_safe g).weaken (fresh_quiet g)).1
+
+/-- a run without junk items is a `runOps` run -/
+theorem runJ_ops (c : Cfg) (ch : PChain) (ops : List Op) : runJ c ch (ops.map .op) = runOps c ch ops := by
+  unfold runJ runOps runJFrom runFrom
+  generalize fresh c = n
+  induction ops generalizing n with
+  | nil => rfl
+  | cons o ops ih => simp only [List.map_cons, List.foldl_cons]; exact ih _
 
 /-! ## `ready`: the largest height up to which everything has been delivered -/
 
